@@ -90,7 +90,7 @@ func TestVerifC02XRConnectionSecret(t *testing.T) {
 			Place:      rapid.SampledFrom(placements).Draw(t, "placement"),
 			Seed:       rapid.Int64Range(1, 1<<40).Draw(t, "seed"),
 		}
-		runCase(rec, sc.build, sc.Place, 2, func() any { return sc }, tfail(t))
+		runCase(rec, sc.build, sc.Place, genVisibility().Draw(t, "reads"), 2, func() any { return sc }, tfail(t))
 	})
 }
 
@@ -198,6 +198,13 @@ func (cc claimCase) build(p placement) (*world, expectation) {
 		e.target = xrKey
 		e.noController = true
 		e.gone = cc.Variant == "delete"
+		if cc.Variant == "bind" {
+			// The property's condition is a foreign *controller owner reference*; an XR's binding is its
+			// spec.claimRef, which only the reconciler's own Get guards. Both syncers document that an
+			// XR they could not read is applied anyway ("probably hijacking it from another claim"), see
+			// TestVerifC02ObservedClaimStaleXR. That is reported, not judged, here.
+			e.noStaleReads = "binding is spec.claimRef, not a controller reference"
+		}
 		if p.isForeign() {
 			w.protected = append(w.protected, xrKey)
 		}
@@ -259,8 +266,30 @@ func TestVerifC02Claims(t *testing.T) {
 			cc.SourceBad = rapid.SampledFrom([]string{"foreign", "uncontrolled"}).Draw(t, "sourceBad")
 			cc.Place = rapid.SampledFrom([]placement{foreign, foreignOwnPlain, foreignExtraPlain}).Draw(t, "sourcePlacement")
 		}
-		runCase(rec, cc.build, cc.Place, 2, func() any { return cc }, tfail(t))
+		runCase(rec, cc.build, cc.Place, genVisibility().Draw(t, "reads"), 2, func() any { return cc }, tfail(t))
 	})
 }
 
 var _ = fmt.Sprint
+
+// TestVerifC02ObservedClaimStaleXR documents (never fails on) what both claim
+// syncers do when the XR the claim names is bound to another claim but is not
+// visible to the reconciler's first Get: the bound check is skipped and the XR
+// is applied. The numbers land in the evidence file as extras.
+func TestVerifC02ObservedClaimStaleXR(t *testing.T) {
+	rec := verifkit.New(t, "C02", "observation only: claim names an XR bound to another claim that its cache has not seen")
+	for _, ssa := range []bool{false, true} {
+		for _, v := range []visibility{{Mode: "hidden"}, {Mode: "appears", K: 2}} {
+			cc := claimCase{SSA: ssa, Variant: "bind", OtherNS: "ns2", Seed: 42}
+			w, e := cc.build(foreign)
+			w.hide(e.target, v)
+			before := verifsim.ObjDigest(w.sim.Get(e.target))
+			w.runSite(2)
+			rec.Eval()
+			if verifsim.ObjDigest(w.sim.Get(e.target)) != before {
+				rec.AddExtra(fmt.Sprintf("observed_claim_rebinds_foreign_bound_xr_when_cache_misses_it/ssa=%v/%s", ssa, v.Mode), 1)
+				t.Logf("observed: ssa=%v reads=%s: the XR bound to another claim was re-bound to this claim", ssa, verifkit.JSON(v))
+			}
+		}
+	}
+}
